@@ -16,6 +16,14 @@ LEDGER_INV = {
 FAMILIES = {
     "ledger": {"module": "MC_Ledger", "quick": ["MC_Ledger_quick.cfg"], "thorough": ["MC_Ledger.cfg", "MC_Ledger_thorough.cfg"],
                "deadlock": False},
+    "payouts": {"module": "MC_Payouts", "quick": ["MC_Payouts.cfg"], "thorough": ["MC_Payouts.cfg", "MC_Payouts_thorough.cfg"],
+                "deadlock": False},
+}
+
+PAYOUT_INV = {
+    "C14": ["StakeIsMin", "Cap", "ExactWhenOver", "FullWhenUnder", "FloorShare", "AbsentUnpaid", "DustToTop", "LateFundsEarnNothing"],
+    "C15": ["DevTotal"],
+    "C16": ["YieldLeqBank", "FullIfFits", "Proportional", "ExactBankWhenOver", "NeverMoreThanWanted", "RefundBound"],
 }
 
 
@@ -36,5 +44,12 @@ def run(pid, tier):
     if pid in LEDGER_INV or pid in ("C11", "C14", "C15", "C16"):
         tot = run_family("ledger", tier)
         tot["invariants_for_this_property"] = LEDGER_INV.get(pid, [])
+        if pid in PAYOUT_INV:
+            p = run_family("payouts", tier)
+            tot["states"] += p["states"]
+            tot["transitions"] += p["transitions"]
+            tot["configs"] += p["configs"]
+            tot["module"] = "MC_Ledger, MC_Payouts"
+            tot["invariants_for_this_property"] += PAYOUT_INV[pid]
         return tot
     return None
